@@ -63,7 +63,7 @@ m = {
  "not_applicable": [
   {"property_id": "C14", "reason": "pure function of (segment bytes, index options, probe key): no schedule, clock, fault or interleaving for a simulator to decide; incidental coverage only via the index knobs in the option swarm (DESIGN.md section 6)"}
  ],
- "notes": "fix: commits in /repo are repairs of genuine defects found by these checks (see known_findings.json and DESIGN.md section 9.3); two known findings (KF1 and KF2, both C20)."
+ "notes": "fix: commits in /repo are repairs of genuine defects found by these checks (see known_findings.json and DESIGN.md section 9.3); one known finding (KF1, C20)."
 }
 json.dump(m, open("/verif/MANIFEST.json","w"), indent=1)
 print("claimed", len(checks))
